@@ -150,6 +150,20 @@ def make_machine(tier):
             self.add(objs[1] / objs[0], 'ratio of observables on overlapping windows')
             self.labels.append('construct_windows')
 
+        @vm.rule(ens=st.sampled_from(['E', 'A']), labels=st.lists(st.sampled_from(['s0|seg1', 's0|seg2', 's1|seg1', 'r1', 'x|y|z']), min_size=2, max_size=3, unique=True),
+                 n=st.integers(5, 12), seed=st.integers(0, 10 ** 6))
+        @vm.traced
+        def construct_nested_separator(self, ens, labels, n, seed):
+            """Replica labels may themselves contain '|': chains still group by the text before the *first* separator."""
+            rng = np.random.RandomState(seed)
+            names = [ens + '|' + lab for lab in labels]
+            o = self.pe.Obs([1.0 + 0.1 * rng.normal(size=n + k) for k in range(len(names))], names)
+            self.add(o, 'constructed (nested separator)')
+            o.gamma_method()
+            require(sorted(o.e_dvalue) == [ens], 'error analysis of one ensemble with nested separators reports ensembles %r' % sorted(o.e_dvalue))
+            self.add(o * o + 1.0, 'arithmetic on nested-separator names')
+            self.labels.append('construct_nested_separator')
+
         @vm.rule(mean=st.one_of(gen.fl(-2, 2), st.integers(-2, 2)), var=gen.fl(0.01, 2.0), name=st.sampled_from(['cx', 'cy']))
         @vm.traced
         def covobs(self, mean, var, name):
